@@ -38,12 +38,24 @@ Proof.
   intros a b Ha. eapply sw_eq_trans; [exact Ha|]. destruct b; [apply add_sw | apply rem_sw].
 Qed.
 
+Lemma set_dv_sw s d : sw_eq s (set_dv s d).
+Proof. repeat split. Qed.
+
+Lemma invoke_sw A now s cb v : sw_eq s (fst (invoke A now s cb v)).
+Proof.
+  unfold invoke. destruct (is_rcb cb); [|apply run_acts_sw].
+  destruct (rc (dv s)); cbn [fst]; [apply sw_eq_refl | apply set_dv_sw].
+Qed.
+
+Lemma recycle_passed_sw now s : sw_eq s (fst (recycle_passed now s)).
+Proof. unfold recycle_passed. destruct (rc (dv s)) as [[t v0]|]; cbn [fst]; [apply set_dv_sw | apply sw_eq_refl]. Qed.
+
 Lemma call_one_sw A now v s0 acc e : sw_eq s0 (fst acc) -> sw_eq s0 (fst (call_one A now v acc e)).
 Proof.
   destruct acc as [s lg]; unfold call_one; cbn [fst]. intros H.
   destruct (negb (live s v e)); [exact H|].
   destruct (snd e =? 0); cbn [fst].
-  - eapply sw_eq_trans; [exact H | apply run_acts_sw].
+  - eapply sw_eq_trans; [exact H | apply invoke_sw].
   - eapply sw_eq_trans; [exact H | apply set_tm_sw].
 Qed.
 
@@ -90,8 +102,9 @@ Lemma report_state A now s lg v :
 Proof.
   unfold report. destruct (Bool.eqb _ _) eqn:E; cbn [fst].
   - apply eqb_prop in E. split; [reflexivity | symmetry; exact E].
-  - destruct (call_handlers_sw A now
-               (mkS (inv s) (logical_of (inv s) lg v) (hw_of (inv s) lg v) now (rg s) (cancel (tm s)))
+  - destruct (mutes (dv s)); cbn [fst]; [|split; reflexivity].
+    destruct (call_handlers_sw A now
+               (mkS (inv s) (logical_of (inv s) lg v) (hw_of (inv s) lg v) now (rg s) (cancel (tm s)) (dv s))
                (logical_of (inv s) lg v)) as (H1 & H2 & _).
     cbn in H1, H2. split; assumption.
 Qed.
@@ -104,8 +117,9 @@ Lemma report_hw A now s lg v :
   let s' := fst (report A now s lg v) in hw s' = xorb (sst s') (inv s').
 Proof.
   intros Hc. unfold report. destruct (Bool.eqb _ _) eqn:E; cbn [fst]; [exact Hc|].
+  destruct (mutes (dv s)); cbn [fst]; [|cbn; apply logical_hw].
   destruct (call_handlers_sw A now
-               (mkS (inv s) (logical_of (inv s) lg v) (hw_of (inv s) lg v) now (rg s) (cancel (tm s)))
+               (mkS (inv s) (logical_of (inv s) lg v) (hw_of (inv s) lg v) now (rg s) (cancel (tm s)) (dv s))
                (logical_of (inv s) lg v)) as (H1 & H2 & H3 & _).
   cbn in H1, H2, H3. rewrite H1, H2, H3. apply logical_hw.
 Qed.
@@ -122,12 +136,15 @@ Lemma step_sw_other A s te :
   (forall lg v, snd te <> EOp (OReport lg v)) -> sw_eq s (fst (step A s te)).
 Proof.
   destruct te as [t e]; unfold step; cbn [fst snd]. intros H.
-  destruct e as [o|].
+  destruct e as [o| |].
   - destruct o; cbn [step_op fst]; try apply sw_eq_refl.
     + exfalso; eapply H; reflexivity.
     + apply add_sw.
     + apply rem_sw.
+    + apply set_dv_sw.
+    + apply set_dv_sw.
   - destruct (earliest _) as [[w tw]|]; [apply process_sw | apply sw_eq_refl].
+  - apply recycle_passed_sw.
 Qed.
 
 Lemma step_fields A s te :
@@ -142,8 +159,8 @@ Proof.
                    inv s1 = inv s /\ hw s1 = xorb (sst s1) (inv s1) /\ sst s1 = sst s).
   { intros H. destruct (step_sw_other A s te H) as (H1&H2&H3&_). cbn zeta.
     rewrite H1, H2, H3. repeat split; assumption. }
-  destruct te as [t [o|]].
-  - destruct o as [lg v|cb st ms|cb st ms|st ms|].
+  destruct te as [t [o| |]].
+  - destruct o as [lg v|cb st ms|cb st ms|st ms|src|src|].
     + unfold step; cbn [fst snd step_op].
       pose proof (report_state A t s lg v) as (H1 & H2). pose proof (report_hw A t s lg v Hc) as H3.
       cbn zeta in *. repeat split; assumption.
@@ -151,6 +168,9 @@ Proof.
     + apply Hother; cbn; intros; discriminate.
     + apply Hother; cbn; intros; discriminate.
     + apply Hother; cbn; intros; discriminate.
+    + apply Hother; cbn; intros; discriminate.
+    + apply Hother; cbn; intros; discriminate.
+  - apply Hother; cbn; intros; discriminate.
   - apply Hother; cbn; intros; discriminate.
 Qed.
 
@@ -167,7 +187,7 @@ Proof.
     specialize (IH s1 Hh). cbn zeta in IH.
     destruct (exec A s1 evs) as [s2 l2] eqn:E2. cbn [fst] in *. destruct IH as (I1 & I2 & I3).
     split; [congruence|]. split; [|exact I3].
-    rewrite I2, Hi, Hst. destruct te as [t [[lg v| | | |]|]]; reflexivity.
+    rewrite I2, Hi, Hst. destruct te as [t [[lg v| | | | | |]| |]]; reflexivity.
 Qed.
 
 Lemma duplicate_is_noop_l A now s lg v :
@@ -248,13 +268,27 @@ Qed.
 
 Definition WN (acc : state * list obs) : Prop := W (tm (fst acc)) /\ nocrash (snd acc).
 
+Lemma invoke_WN A now s cb v : W (tm s) -> WN (invoke A now s cb v).
+Proof.
+  intros H. unfold invoke. destruct (is_rcb cb).
+  - destruct (rc (dv s)); (split; cbn [fst snd]; [exact H|]); [apply nocrash_nil | apply nocrash_fire].
+  - split; cbn [fst snd]; [apply run_acts_W; exact H | apply nocrash_fire].
+Qed.
+
+Lemma recycle_passed_WN now s : W (tm s) -> WN (recycle_passed now s).
+Proof.
+  intros H. unfold recycle_passed. destruct (rc (dv s)) as [[t v0]|]; (split; cbn [fst snd]; [exact H|]).
+  - destruct (Bool.eqb _ _); [apply nocrash_nil | apply nocrash_fire].
+  - apply nocrash_nil.
+Qed.
+
 Lemma call_one_WN A now v acc e : WN acc -> WN (call_one A now v acc e).
 Proof.
   destruct acc as [s lg]; unfold WN, call_one; cbn [fst snd]. intros [H1 H2].
   destruct (negb (live s v e)); [split; assumption|].
   destruct (snd e =? 0); cbn [fst snd]; split.
-  - apply run_acts_W; exact H1.
-  - apply nocrash_app; [exact H2 | apply nocrash_fire].
+  - apply invoke_WN; exact H1.
+  - apply nocrash_app; [exact H2 | apply invoke_WN; exact H1].
   - cbn. apply add_timed_W; exact H1.
   - exact H2.
 Qed.
@@ -270,7 +304,9 @@ Lemma report_WN A now s lg v : W (tm s) -> WN (report A now s lg v).
 Proof.
   intros H. unfold report. destruct (Bool.eqb _ _).
   - split; [exact H | apply nocrash_nil].
-  - apply call_handlers_WN. cbn. apply cancel_W; exact H.
+  - destruct (mutes (dv s)).
+    + apply call_handlers_WN. cbn. apply cancel_W; exact H.
+    + split; cbn [fst snd]; [cbn; apply cancel_W; exact H | apply nocrash_nil].
 Qed.
 
 Lemma proc_one_WN A now k acc e : WN acc -> WN (proc_one A now k acc e).
@@ -313,16 +349,19 @@ Qed.
 
 Lemma step_WN A s te : W (tm s) -> WN (step A s te).
 Proof.
-  intros H. destruct te as [t [o|]]; unfold step; cbn [fst snd].
+  intros H. destruct te as [t [o| |]]; unfold step; cbn [fst snd].
   - destruct o; cbn [step_op].
     + apply report_WN; exact H.
     + split; [apply add_W; exact H | apply nocrash_nil].
     + split; [apply rem_W; exact H | apply nocrash_nil].
     + split; [exact H | intros t' [C|[]]; discriminate].
     + split; [exact H | apply nocrash_nil].
+    + split; [exact H | apply nocrash_nil].
+    + split; [exact H | apply nocrash_nil].
   - destruct (earliest _) as [[w tw]|] eqn:E.
     + eapply process_WN; eauto.
     + split; [exact H | apply nocrash_nil].
+  - apply recycle_passed_WN; exact H.
 Qed.
 
 Lemma exec_WN A evs : forall s, W (tm s) -> WN (exec A s evs).
@@ -335,7 +374,7 @@ Proof.
     split; cbn [fst snd]; [exact I1 | apply nocrash_app; assumption].
 Qed.
 
-Lemma init_W nc st h lc0 a b : W (tm (init_state nc st h lc0 a b)).
+Lemma init_W nc st h lc0 win a b : W (tm (init_state nc st h lc0 win a b)).
 Proof. unfold W; cbn. split; [reflexivity | intros C; contradiction]. Qed.
 
 (* ------------------------------------------------------------------------------------------------ *)
@@ -501,6 +540,35 @@ Section Removed.
 
   Definition AN (acc : state * list obs) : Prop := absent (fst acc) /\ nofire (snd acc).
 
+  (* the removed handler is a user callback, not one of the Switch device's own event posts *)
+  Hypothesis Hcb : is_ev cb = false.
+
+  Lemma set_dv_absent s d : absent s -> absent (set_dv s d).
+  Proof. intros H; exact H. Qed.
+
+  Lemma ev_fire_neq t now v : Fire t cb st ms <> Fire now (1000 + b2z v) v 0.
+  Proof.
+    intros C. injection C as _ Hc _ _. unfold is_ev in Hcb. apply Z.leb_gt in Hcb. destruct v; cbn in Hc; lia.
+  Qed.
+
+  Lemma invoke_AN now s cb' v :
+    absent s -> ~ (cb' = cb /\ v = st /\ ms = 0) -> AN (invoke A now s cb' v).
+  Proof.
+    intros H Hn. unfold invoke. destruct (is_rcb cb').
+    - destruct (rc (dv s)); split; cbn [fst snd]; try exact H; try apply nofire_nil.
+      intros t [C|[]]. symmetry in C. revert C. apply ev_fire_neq.
+    - split; cbn [fst snd]; [apply run_acts_absent; exact H|].
+      intros t [C|[]]. injection C as _ Hc Hv Hms. apply Hn. auto.
+  Qed.
+
+  Lemma recycle_passed_AN now s : absent s -> AN (recycle_passed now s).
+  Proof.
+    intros H. unfold recycle_passed. destruct (rc (dv s)) as [[t0 v0]|]; split; cbn [fst snd]; try exact H;
+      try apply nofire_nil.
+    destruct (Bool.eqb _ _); [apply nofire_nil|].
+    intros t [C|[]]. symmetry in C. revert C. apply ev_fire_neq.
+  Qed.
+
   Lemma call_one_AN now v acc e : AN acc -> AN (call_one A now v acc e).
   Proof.
     destruct acc as [s lg]; unfold AN, call_one; cbn [fst snd]. intros [H1 H2].
@@ -508,10 +576,10 @@ Section Removed.
     apply negb_false_iff in El.
     assert (Hm : v = st -> ent_match cb ms e = false) by (intros ->; eapply live_absent; eauto).
     destruct (snd e =? 0) eqn:E0; cbn [fst snd]; split.
-    - apply run_acts_absent; exact H1.
-    - apply nofire_app; [exact H2|]. intros t [H|[]]. injection H as _ Hc Hv Hms. subst v.
-      specialize (Hm eq_refl). unfold ent_match in Hm. apply Z.eqb_eq in E0.
-      rewrite E0, Hc, <- Hms, !Z.eqb_refl in Hm. discriminate.
+    - apply invoke_AN; [exact H1|]. intros (Hc & Hv & Hms). specialize (Hm Hv).
+      unfold ent_match in Hm. apply Z.eqb_eq in E0. rewrite E0, Hc, Hms, !Z.eqb_refl in Hm. discriminate.
+    - apply nofire_app; [exact H2|]. apply invoke_AN; [exact H1|]. intros (Hc & Hv & Hms). specialize (Hm Hv).
+      unfold ent_match in Hm. apply Z.eqb_eq in E0. rewrite E0, Hc, Hms, !Z.eqb_refl in Hm. discriminate.
     - destruct H1 as [Hr Ht]. split; [exact Hr|]. unfold get_tbl; cbn [set_tm tm].
       apply get_tbl_add_timed; [exact Ht|].
       destruct (eq_triple (snd (fst e), v, snd e) x) eqn:Ex; [|reflexivity].
@@ -531,10 +599,12 @@ Section Removed.
   Proof.
     intros H. unfold report. destruct (Bool.eqb _ _).
     - split; [exact H | apply nofire_nil].
-    - apply call_handlers_AN. destruct H as [Hr Ht]. split; [exact Hr|].
-      unfold get_tbl in *; cbn [tm]. unfold cancel. destruct (timed (tm s)) as [d|] eqn:E.
-      + cbn. intros k l [].
-      + rewrite E. exact Ht.
+    - match goal with |- context [call_handlers A now ?s1 _] => assert (Hs1 : absent s1) end.
+      { destruct H as [Hr Ht]. split; [exact Hr|].
+        unfold get_tbl in *; cbn [tm]. unfold cancel. destruct (timed (tm s)) as [d|] eqn:E.
+        + cbn. intros k l [].
+        + rewrite E. exact Ht. }
+      destruct (mutes (dv s)); [apply call_handlers_AN; exact Hs1 | split; [exact Hs1 | apply nofire_nil]].
   Qed.
 
   Lemma proc_one_AN now k acc e : AN acc -> AN (proc_one A now k acc e).
@@ -584,17 +654,20 @@ Section Removed.
 
   Lemma step_AN s te : ev_ok te -> absent s -> AN (step A s te).
   Proof.
-    intros Hev H. destruct te as [t [o|]]; unfold step; cbn [fst snd].
-    - destruct o as [lg v|cb' st' ms'|cb' st' ms'|st' ms'|]; cbn [step_op].
+    intros Hev H. destruct te as [t [o| |]]; unfold step; cbn [fst snd].
+    - destruct o as [lg v|cb' st' ms'|cb' st' ms'|st' ms'|src|src|]; cbn [step_op].
       + apply report_AN; exact H.
       + split; [|apply nofire_nil]. cbn [fst]. apply add_absent; [|exact H].
         intros C. apply Hev. cbn. injection C as -> -> ->. reflexivity.
       + split; [apply rem_absent_pres; exact H | apply nofire_nil].
       + split; [exact H | intros t' [C|[]]; discriminate].
       + split; [exact H | apply nofire_nil].
+      + split; [exact H | apply nofire_nil].
+      + split; [exact H | apply nofire_nil].
     - destruct (earliest _) as [[w tw]|].
       + apply process_AN; exact H.
       + split; [exact H | apply nofire_nil].
+    - apply recycle_passed_AN; exact H.
   Qed.
 
   Lemma exec_AN evs : forall s, Forall ev_ok evs -> absent s -> AN (exec A s evs).
@@ -644,26 +717,43 @@ Proof.
   destruct (HA a (or_introl eq_refl)) as (cb & st & ms & ->). cbn [run_act]. apply add_reg_mono; exact H.
 Qed.
 
+Lemma invoke_plain A now s cb v :
+  is_rcb cb = false -> invoke A now s cb v = (run_acts now s (A cb), [Fire now cb v 0]).
+Proof. unfold invoke; intros ->; reflexivity. Qed.
+
+Lemma invoke_reg_mono A now s cb v v' e :
+  adds_only A -> In e (reg_of (rg s) v') -> In e (reg_of (rg (fst (invoke A now s cb v))) v').
+Proof.
+  intros HA H. unfold invoke. destruct (is_rcb cb); [|apply run_acts_reg_mono; assumption].
+  destruct (rc (dv s)); exact H.
+Qed.
+
+(* no ignore-window handler among the entries (ignore_window_ms = 0, the default) *)
+Definition no_rcb (l : list entry) : Prop := forall e, In e l -> is_rcb (snd (fst e)) = false.
+
 Lemma call_fold_log A now v : adds_only A -> forall l s lg,
-  (forall e, In e l -> In e (reg_of (rg s) v)) ->
+  (forall e, In e l -> In e (reg_of (rg s) v)) -> no_rcb l ->
   snd (fold_left (call_one A now v) l (s, lg)) = lg ++ untimed_fires now v l.
 Proof.
-  intros HA. induction l as [|e l IH]; intros s lg Hin; cbn [fold_left untimed_fires flat_map].
+  intros HA. induction l as [|e l IH]; intros s lg Hin Hr; cbn [fold_left untimed_fires flat_map].
   - rewrite app_nil_r. reflexivity.
-  - unfold call_one at 2. rewrite (in_live s v e (Hin e (or_introl eq_refl))). cbn [negb].
+  - assert (Hr' : no_rcb l) by (intros e' He'; apply Hr; right; exact He').
+    unfold call_one at 2. rewrite (in_live s v e (Hin e (or_introl eq_refl))). cbn [negb].
     destruct (snd e =? 0).
-    + rewrite IH; [rewrite <- app_assoc; reflexivity|].
+    + rewrite (invoke_plain A now s _ v (Hr e (or_introl eq_refl))). cbn [fst snd].
+      rewrite IH; [rewrite <- app_assoc; reflexivity | | exact Hr'].
       intros e' He'. apply run_acts_reg_mono; [exact HA | apply Hin; right; exact He'].
-    + rewrite IH; [reflexivity|]. intros e' He'. cbn. apply Hin; right; exact He'.
+    + rewrite IH; [reflexivity | | exact Hr']. intros e' He'. cbn. apply Hin; right; exact He'.
 Qed.
 
 Lemma untimed_once_l A now s lg val :
-  adds_only A -> logical_of (inv s) lg val <> sst s ->
+  adds_only A -> logical_of (inv s) lg val <> sst s -> mutes (dv s) = [] ->
+  no_rcb (reg_of (rg s) (logical_of (inv s) lg val)) ->
   snd (report A now s lg val)
   = untimed_fires now (logical_of (inv s) lg val) (reg_of (rg s) (logical_of (inv s) lg val)).
 Proof.
-  intros HA Hne. unfold report. destruct (Bool.eqb _ _) eqn:E; [apply eqb_prop in E; contradiction|].
-  unfold call_handlers. cbn [rg]. rewrite call_fold_log; [reflexivity | exact HA | auto].
+  intros HA Hne Hm Hr. unfold report. destruct (Bool.eqb _ _) eqn:E; [apply eqb_prop in E; contradiction|].
+  rewrite Hm. unfold call_handlers. cbn [rg]. rewrite call_fold_log; [reflexivity | exact HA | auto | exact Hr].
 Qed.
 
 (* ------------------------------------------------------------------------------------------------ *)
@@ -704,6 +794,12 @@ Proof.
   destruct (HA a (or_introl eq_refl)) as (cb & st & ms & ->). cbn [run_act]. apply add_has_mono; exact H.
 Qed.
 
+Lemma invoke_has_mono A now s cb v k e : adds_only A -> has s k e -> has (fst (invoke A now s cb v)) k e.
+Proof.
+  intros HA H. unfold invoke. destruct (is_rcb cb); [|apply run_acts_has_mono; assumption].
+  destruct (rc (dv s)); exact H.
+Qed.
+
 (* catch-up on registration (fix 1): the handler is entered at the ORIGINAL deadline last_change + ms iff that
    deadline is still ahead; otherwise the deadline table is left alone *)
 Lemma catchup_l now s cb ms :
@@ -739,17 +835,18 @@ Proof.
   intros HA. induction l as [|e l IH]; intros s lg Hin Hlc; cbn [fold_left fst].
   - split; [auto | intros e []].
   - assert (Hstep : call_one A now v (s, lg) e
-                    = if snd e =? 0 then (run_acts now s (A (snd (fst e))), lg ++ [Fire now (snd (fst e)) v 0])
+                    = if snd e =? 0 then (fst (invoke A now s (snd (fst e)) v),
+                                          lg ++ snd (invoke A now s (snd (fst e)) v))
                       else (set_tm s (add_timed (tm s) (lc s + us (snd e)) (snd (fst e), v, snd e)), lg)).
     { unfold call_one. rewrite (in_live s v e (Hin e (or_introl eq_refl))). reflexivity. }
     rewrite Hstep. clear Hstep.
     destruct (snd e =? 0) eqn:E0.
-    + specialize (IH (run_acts now s (A (snd (fst e)))) (lg ++ [Fire now (snd (fst e)) v 0])).
+    + specialize (IH (fst (invoke A now s (snd (fst e)) v)) (lg ++ snd (invoke A now s (snd (fst e)) v))).
       destruct IH as [I1 I2].
-      * intros e' He'. apply run_acts_reg_mono; [exact HA | apply Hin; right; exact He'].
-      * destruct (run_acts_sw now (A (snd (fst e))) s) as (_&_&_&->). exact Hlc.
+      * intros e' He'. apply invoke_reg_mono; [exact HA | apply Hin; right; exact He'].
+      * destruct (invoke_sw A now s (snd (fst e)) v) as (_&_&_&->). exact Hlc.
       * split.
-        -- intros k e' H. apply I1. apply run_acts_has_mono; assumption.
+        -- intros k e' H. apply I1. apply invoke_has_mono; assumption.
         -- intros e' [Heq|He'] Hn; [subst e'; apply Z.eqb_eq in E0; contradiction | apply I2; assumption].
     + specialize (IH (set_tm s (add_timed (tm s) (lc s + us (snd e)) (snd (fst e), v, snd e))) lg).
       destruct IH as [I1 I2].
@@ -764,13 +861,13 @@ Proof.
 Qed.
 
 Lemma change_schedules_l A now s lg val :
-  adds_only A -> logical_of (inv s) lg val <> sst s ->
+  adds_only A -> logical_of (inv s) lg val <> sst s -> mutes (dv s) = [] ->
   let v := logical_of (inv s) lg val in
   let s' := fst (report A now s lg val) in
   forall e, In e (reg_of (rg s) v) -> snd e <> 0 -> has s' (now + us (snd e)) (snd (fst e), v, snd e).
 Proof.
-  intros HA Hne. cbn zeta. unfold report. destruct (Bool.eqb _ _) eqn:E; [apply eqb_prop in E; contradiction|].
-  unfold call_handlers. cbn [rg].
+  intros HA Hne Hm. cbn zeta. unfold report. destruct (Bool.eqb _ _) eqn:E; [apply eqb_prop in E; contradiction|].
+  rewrite Hm. unfold call_handlers. cbn [rg].
   match goal with |- context [fold_left ?f ?l (?s0, [])] =>
     destruct (call_fold_has A now (logical_of (inv s) lg val) HA l s0 []) as [_ H2]; [auto | reflexivity |] end.
   exact H2.
@@ -781,6 +878,290 @@ Lemma change_cancels_l (T : timers) : timed (cancel T) = None.
 Proof. unfold cancel. destruct (timed T) eqn:E; [reflexivity | exact E]. Qed.
 
 (* ------------------------------------------------------------------------------------------------ *)
+(* 6. mute: a muted switch follows the hardware and drops the holds of the state it left, but invokes nothing *)
+Lemma muted_change_l A now s lg val :
+  mutes (dv s) <> [] -> logical_of (inv s) lg val <> sst s ->
+  let s' := fst (report A now s lg val) in
+  snd (report A now s lg val) = [] /\ sst s' = logical_of (inv s) lg val /\ lc s' = now /\
+  timed (tm s') = None /\ rg s' = rg s.
+Proof.
+  intros Hm Hne. cbn zeta. unfold report. destruct (Bool.eqb _ _) eqn:E; [apply eqb_prop in E; contradiction|].
+  destruct (mutes (dv s)); [contradiction|]. cbn [fst snd sst lc tm rg].
+  repeat split. apply change_cancels_l.
+Qed.
+
+(* ------------------------------------------------------------------------------------------------ *)
+(* 7. every pending timed entry is for the state the switch is in, and nothing is ever invoked for a state  *)
+(*    the switch has left — whatever was muted, removed or re-registered                                    *)
+Definition tbl_all (P : triple -> Prop) (d : table) : Prop :=
+  forall k l, In (k, l) d -> forall e, In e l -> P e.
+
+Lemma tbl_all_tail P kl d : tbl_all P (kl :: d) -> tbl_all P d.
+Proof. intros H k l Hin. apply (H k l). right; exact Hin. Qed.
+
+Lemma tbl_all_add P d k e : tbl_all P d -> P e -> tbl_all P (tbl_add d k e).
+Proof.
+  intros Hd He. induction d as [|[k' l'] d IH]; cbn.
+  - intros k0 l0 [H|[]] e0 H0. injection H as <- <-. destruct H0 as [<-|[]]. exact He.
+  - pose proof (tbl_all_tail _ _ _ Hd) as Hd'. destruct (k =? k').
+    + intros k0 l0 [H|H] e0 H0.
+      * injection H as <- <-. apply in_app_or in H0 as [H0|[<-|[]]]; [|exact He].
+        apply (Hd k' l'); [left; reflexivity | exact H0].
+      * apply (Hd' k0 l0 H e0 H0).
+    + intros k0 l0 [H|H] e0 H0.
+      * apply (Hd k0 l0); [left; exact H | exact H0].
+      * apply (IH Hd' k0 l0 H e0 H0).
+Qed.
+
+Lemma tbl_all_del P d k : tbl_all P d -> tbl_all P (tbl_del d k).
+Proof.
+  intros Hd. induction d as [|[k' l'] d IH]; cbn; [exact Hd|].
+  pose proof (tbl_all_tail _ _ _ Hd) as Hd'. destruct (k =? k'); [exact Hd'|].
+  intros k0 l0 [H|H] e0 H0.
+  - apply (Hd k0 l0); [left; exact H | exact H0].
+  - apply (IH Hd' k0 l0 H e0 H0).
+Qed.
+
+Lemma tbl_all_filter P y d : tbl_all P d -> tbl_all P (tbl_filter y d).
+Proof.
+  intros Hd k l H e He. unfold tbl_filter in H. apply in_map_iff in H as ([k' l'] & Heq & Hin).
+  cbn in Heq. injection Heq as <- <-. apply filter_In in He as [He _]. apply (Hd k' l' Hin e He).
+Qed.
+
+Lemma tbl_all_get P d k e : tbl_all P d -> In e (tbl_get d k) -> P e.
+Proof.
+  intros Hd. induction d as [|[k' l'] d IH]; cbn; [intros []|].
+  pose proof (tbl_all_tail _ _ _ Hd) as Hd'. destruct (k =? k'); intros H.
+  - apply (Hd k' l'); [left; reflexivity | exact H].
+  - apply IH; assumption.
+Qed.
+
+Definition TS (s : state) : Prop := tbl_all (fun e => snd (fst e) = sst s) (get_tbl s).
+Definition fires_in (v : bool) (l : list obs) : Prop := forall t c st m, In (Fire t c st m) l -> st = v.
+
+Lemma fires_in_nil v : fires_in v []. Proof. intros t c st m []. Qed.
+Lemma fires_in_app v a b : fires_in v a -> fires_in v b -> fires_in v (a ++ b).
+Proof. intros Ha Hb t c st m H. apply in_app_or in H as [H|H]; [eapply Ha | eapply Hb]; eauto. Qed.
+Lemma fires_in_one v t c m : fires_in v [Fire t c v m].
+Proof. intros t' c' st' m' [H|[]]. injection H as _ _ <- _. reflexivity. Qed.
+
+Lemma add_TS now s cb st ms : TS s -> TS (add now s cb st ms).
+Proof.
+  unfold TS, get_tbl, add; cbn [tm sst]. intros H.
+  destruct (negb (ms =? 0) && (lc s >? now - us ms)); cbn [andb]; [|exact H].
+  destruct (Bool.eqb st (sst s)) eqn:E; [|exact H]. apply eqb_prop in E.
+  rewrite get_tbl_add_timed_eq. apply tbl_all_add; [exact H | exact E].
+Qed.
+
+Lemma rem_TS s cb st ms : TS s -> TS (rem s cb st ms).
+Proof.
+  unfold TS, get_tbl, rem; cbn [tm sst]. intros H. destruct (timed (tm s)) as [d|] eqn:E; cbn.
+  - apply tbl_all_filter; exact H.
+  - rewrite E. exact H.
+Qed.
+
+Lemma run_acts_TS now l s : TS s -> TS (run_acts now s l).
+Proof.
+  unfold run_acts. apply (fold_inv (run_act now) TS).
+  intros a b Ha. destruct b; [apply add_TS | apply rem_TS]; exact Ha.
+Qed.
+
+Definition TL (v : bool) (acc : state * list obs) : Prop :=
+  TS (fst acc) /\ sst (fst acc) = v /\ fires_in v (snd acc).
+
+Lemma run_acts_sst now l s : sst (run_acts now s l) = sst s.
+Proof. destruct (run_acts_sw now l s) as (_ & H & _). exact H. Qed.
+
+Lemma invoke_TL A now s cb : TS s -> TL (sst s) (invoke A now s cb (sst s)).
+Proof.
+  intros H. unfold invoke. destruct (is_rcb cb).
+  - destruct (rc (dv s)); (split; [exact H | split; [reflexivity|]]); cbn [snd];
+      [apply fires_in_nil | apply fires_in_one].
+  - split; [apply run_acts_TS; exact H | split; [apply run_acts_sst | apply fires_in_one]].
+Qed.
+
+Lemma call_one_TL A now v acc e : TL v acc -> TL v (call_one A now v acc e).
+Proof.
+  destruct acc as [s lg]; unfold TL, call_one; cbn [fst snd]. intros (H1 & H2 & H3). subst v.
+  destruct (negb (live s (sst s) e)); [repeat split; assumption|].
+  destruct (snd e =? 0); cbn [fst snd].
+  - destruct (invoke_TL A now s (snd (fst e)) H1) as (I1 & I2 & I3).
+    split; [exact I1 | split; [exact I2 | apply fires_in_app; assumption]].
+  - split; [|split; [reflexivity | exact H3]].
+    unfold TS, get_tbl; cbn [set_tm tm sst]. rewrite get_tbl_add_timed_eq.
+    apply tbl_all_add; [exact H1 | reflexivity].
+Qed.
+
+Lemma report_TL A now s lg val :
+  TS s -> TL (sst (fst (report A now s lg val))) (report A now s lg val).
+Proof.
+  intros H. unfold report. destruct (Bool.eqb _ _) eqn:E.
+  - cbn [fst]. split; [exact H | split; [reflexivity | apply fires_in_nil]].
+  - match goal with |- context [call_handlers A now ?s0 ?v0] =>
+      set (s1 := s0); set (v := v0);
+      assert (H1 : TL v (s1, [])) end.
+    { split; [|split; [reflexivity | apply fires_in_nil]].
+      unfold TS, get_tbl; cbn [fst tm s1]. rewrite change_cancels_l. intros k l []. }
+    destruct (mutes (dv s)).
+    + unfold call_handlers.
+      pose proof (fold_inv (call_one A now v) (TL v) (reg_of (rg s1) v)
+                    (fun x y Hx => call_one_TL A now v x y Hx) (s1, []) H1) as H2.
+      destruct H2 as (I1 & I2 & I3). rewrite I2. split; [exact I1 | split; [exact I2 | exact I3]].
+    + cbn [fst]. exact H1.
+Qed.
+
+Lemma proc_one_TL A now k v acc e : TL v acc -> TL v (proc_one A now k acc e).
+Proof.
+  destruct acc as [s lg]; unfold TL, proc_one; cbn [fst snd]. intros (H1 & H2 & H3).
+  destruct (existsb _ _) eqn:Ee; cbn [fst snd]; [|repeat split; assumption].
+  split; [apply run_acts_TS; exact H1 | split; [rewrite run_acts_sst; exact H2|]].
+  apply fires_in_app; [exact H3|].
+  apply existsb_exists in Ee as (e' & Hin & He). apply eq_triple_true in He as (_ & He & _).
+  pose proof (tbl_all_get _ _ _ _ H1 Hin) as Hs. cbn beta in Hs. rewrite He, Hs, H2. apply fires_in_one.
+Qed.
+
+Lemma proc_key_TL A now v acc k : TL v acc -> TL v (proc_key A now acc k).
+Proof.
+  destruct acc as [s lg]; unfold proc_key. intros H.
+  destruct (k <=? now); [|exact H].
+  pose proof (fold_inv (proc_one A now k) (TL v) (tbl_get (get_tbl s) k)
+                (fun x y Hx => proc_one_TL A now k v x y Hx) (s, lg) H) as H1.
+  destruct (fold_left _ _ _) as [s1 lg1]. destruct H1 as (I1 & I2 & I3); cbn [fst snd] in *.
+  split; [|split; assumption]. unfold TS, get_tbl at 1; cbn. apply tbl_all_del; exact I1.
+Qed.
+
+Lemma process_TL A now s w : TS s -> TL (sst s) (process A now s w).
+Proof.
+  intros H. unfold process. cbn [cur timed wakes wid].
+  destruct (cur (tm s)) as [c|].
+  2:{ split; [exact H | split; [reflexivity|]]. intros t c st m [C|[]]; discriminate. }
+  destruct (timed (tm s)) as [d|] eqn:Ed.
+  - match goal with |- context [fold_left ?f ?l ?a0] =>
+      assert (H0 : TL (sst s) a0) by
+        (split; [unfold TS, get_tbl in *; cbn; rewrite Ed in H; exact H | split; [reflexivity | apply fires_in_nil]]);
+      pose proof (fold_inv f (TL (sst s)) l (fun x y Hx => proc_key_TL A now (sst s) x y Hx) a0 H0) as H1;
+      destruct (fold_left f l a0) as [s2 lg] end.
+    destruct H1 as (I1 & I2 & I3); cbn [fst snd] in *. split; [|split; assumption].
+    unfold TS, get_tbl in *; cbn [fst set_tm tm sst]. rewrite timed_resched. exact I1.
+  - split; [|split; [reflexivity|]].
+    + unfold TS, get_tbl; cbn. intros k l [].
+    + intros t c0 st m [C|[]]; discriminate.
+Qed.
+
+Lemma step_TL A s te : TS s -> TL (sst (fst (step A s te))) (step A s te).
+Proof.
+  intros H. destruct te as [t [o| |]]; unfold step; cbn [fst snd].
+  - destruct o; cbn [step_op fst].
+    + apply report_TL; exact H.
+    + split; [apply add_TS; exact H | split; [reflexivity | apply fires_in_nil]].
+    + split; [apply rem_TS; exact H | split; [reflexivity | apply fires_in_nil]].
+    + split; [exact H | split; [reflexivity|]]. intros t' c st' m [C|[]]; discriminate.
+    + split; [exact H | split; [reflexivity | apply fires_in_nil]].
+    + split; [exact H | split; [reflexivity | apply fires_in_nil]].
+    + split; [exact H | split; [reflexivity | apply fires_in_nil]].
+  - destruct (earliest _) as [[w tw]|].
+    + pose proof (process_TL A t s w H) as H1. destruct (process_sw A t s w) as (_ & Hs & _).
+      rewrite Hs. exact H1.
+    + split; [exact H | split; [reflexivity | apply fires_in_nil]].
+  - unfold recycle_passed. destruct (rc (dv s)) as [[t0 v0]|]; cbn [fst snd].
+    + split; [exact H | split; [reflexivity|]]. destruct (Bool.eqb _ _); [apply fires_in_nil | apply fires_in_one].
+    + split; [exact H | split; [reflexivity | apply fires_in_nil]].
+Qed.
+
+Lemma step_TS_l A s te :
+  TS s -> TS (fst (step A s te)) /\ fires_in (sst (fst (step A s te))) (snd (step A s te)).
+Proof. intros H. destruct (step_TL A s te H) as (H1 & _ & H3). split; assumption. Qed.
+
+Lemma exec_TS_l A evs : forall s, TS s -> TS (fst (exec A s evs)).
+Proof.
+  induction evs as [|te evs IH]; intros s H; cbn [exec]; [exact H|].
+  destruct (step_TS_l A s te H) as [H1 _]. destruct (step A s te) as [s1 l1]; cbn [fst] in H1.
+  specialize (IH s1 H1). destruct (exec A s1 evs) as [s2 l2]. exact IH.
+Qed.
+
+Lemma init_TS nc st h lc0 win a b : TS (init_state nc st h lc0 win a b).
+Proof. unfold TS, get_tbl; cbn. intros k l []. Qed.
+
+(* ------------------------------------------------------------------------------------------------ *)
+(* 8. the ignore window (ignore_window_ms): Switch._post_events_with_recycle / _recycle_passed              *)
+Lemma recycle_open_l A now s cb v :
+  is_rcb cb = true -> rc (dv s) = None ->
+  invoke A now s cb v = (set_rc s (Some (lc s + rwin (dv s), v)), [Fire now (1000 + b2z v) v 0]).
+Proof. intros H1 H2. unfold invoke. rewrite H1, H2. reflexivity. Qed.
+
+Lemma recycle_inside_l A now s cb v w :
+  is_rcb cb = true -> rc (dv s) = Some w -> invoke A now s cb v = (s, []).
+Proof. intros H1 H2. unfold invoke. rewrite H1, H2. reflexivity. Qed.
+
+Lemma recycle_end_l now s t0 v0 :
+  rc (dv s) = Some (t0, v0) ->
+  let s' := fst (recycle_passed now s) in
+  rc (dv s') = None /\ sst s' = sst s /\ tm s' = tm s /\ rg s' = rg s /\
+  snd (recycle_passed now s) = if Bool.eqb (sst s) v0 then [] else [Fire now (1000 + b2z (sst s)) (sst s) 0].
+Proof. intros H. cbn zeta. unfold recycle_passed. rewrite H. cbn. repeat split. Qed.
+
+(* history level: while a window is open nothing is posted for the switch by a change, and the window can
+   only be closed by its own timer: for any operation other than the window-end timer, an open window stays
+   exactly as it is *)
+Lemma invoke_rc_kept A now s cb v w : rc (dv s) = Some w -> rc (dv (fst (invoke A now s cb v))) = Some w.
+Proof.
+  intros H. unfold invoke. destruct (is_rcb cb).
+  - rewrite H. exact H.
+  - cbn [fst]. revert s H. unfold run_acts. induction (A cb) as [|a l IH]; cbn [fold_left]; intros s H; [exact H|].
+    apply IH. destruct a; exact H.
+Qed.
+
+Lemma dv_run_acts now l s : dv (run_acts now s l) = dv s.
+Proof.
+  unfold run_acts. revert s. induction l as [|a l IH]; cbn [fold_left]; intros s; [reflexivity|].
+  rewrite IH. destruct a; reflexivity.
+Qed.
+
+Lemma call_one_rc A now v w acc e :
+  rc (dv (fst acc)) = Some w -> rc (dv (fst (call_one A now v acc e))) = Some w.
+Proof.
+  destruct acc as [s lg]; unfold call_one; cbn [fst]. intros H.
+  destruct (negb (live s v e)); [exact H|]. destruct (snd e =? 0); cbn [fst].
+  - apply invoke_rc_kept; exact H.
+  - exact H.
+Qed.
+
+Lemma proc_one_rc A now k w acc e :
+  rc (dv (fst acc)) = Some w -> rc (dv (fst (proc_one A now k acc e))) = Some w.
+Proof.
+  destruct acc as [s lg]; unfold proc_one; cbn [fst]. intros H.
+  destruct (existsb _ _); cbn [fst]; [rewrite dv_run_acts|]; exact H.
+Qed.
+
+Lemma proc_key_rc A now w acc k :
+  rc (dv (fst acc)) = Some w -> rc (dv (fst (proc_key A now acc k))) = Some w.
+Proof.
+  destruct acc as [s lg]; unfold proc_key. intros H. destruct (k <=? now); [|exact H].
+  pose proof (fold_inv (proc_one A now k) (fun acc => rc (dv (fst acc)) = Some w) (tbl_get (get_tbl s) k)
+                (fun x y Hx => proc_one_rc A now k w x y Hx) (s, lg) H) as H1.
+  destruct (fold_left _ _ _) as [s1 lg1]. exact H1.
+Qed.
+
+Lemma window_only_closed_by_its_timer_l A s te w :
+  rc (dv s) = Some w -> snd te <> ERecycle -> rc (dv (fst (step A s te))) = Some w.
+Proof.
+  intros H Hne. destruct te as [t [o| |]]; unfold step; cbn [fst snd] in *.
+  - destruct o; cbn [step_op fst]; try exact H.
+    + unfold report. destruct (Bool.eqb _ _); [exact H|]. destruct (mutes (dv s)); [|exact H].
+      unfold call_handlers.
+      apply (fold_inv (call_one A t _) (fun acc => rc (dv (fst acc)) = Some w));
+        [intros; apply call_one_rc; assumption | exact H].
+  - destruct (earliest _) as [[w0 tw]|]; [|exact H]. unfold process. cbn [cur timed wakes wid].
+    destruct (cur (tm s)); [|exact H]. destruct (timed (tm s)) as [d|]; [|exact H].
+    match goal with |- context [fold_left ?f ?l ?a0] =>
+      pose proof (fold_inv f (fun acc => rc (dv (fst acc)) = Some w) l
+                    (fun x y Hx => proc_key_rc A t w x y Hx) a0 H) as H1;
+      destruct (fold_left f l a0) as [s2 lg] end.
+    exact H1.
+  - contradiction.
+Qed.
+
+(* ------------------------------------------------------------------------------------------------ *)
 (* Examples: the hypotheses of the theorems are satisfiable on non-trivial states, and the three      *)
 (* repaired scenarios computed on the model                                                          *)
 Definition exA (c : Z) : list act :=
@@ -789,7 +1170,7 @@ Definition exA_adds (c : Z) : list act := if c =? 1 then [AAdd 2 true 750; AAdd 
 
 (* an NC switch, inactive, with its two event handlers, one untimed and two timed handlers *)
 Definition ex_s0 : state :=
-  let s := init_state true false true (-100000000000) [(1000, 0)] [(1001, 0)] in
+  let s := init_state true false true (-100000000000) 0 [(1000, 0)] [(1001, 0)] in
   add 0 (add 0 (add 0 (add 0 s 1 true 250) 4 true 250) 3 true 0) 7 true 500.
 
 Example ex_consistent : hw ex_s0 = xorb (sst ex_s0) (inv ex_s0).
@@ -852,10 +1233,53 @@ Proof. vm_compute. split; [right; left; reflexivity | reflexivity]. Qed.
 
 (* fix 2: the same (callback,state,ms) registered twice and removed during the interval: neither copy fires *)
 Example ex_duplicate_removed :
-  let s := add 0 (add 0 (init_state false false false (-100000000000) [] []) 1 true 500) 1 true 500 in
+  let s := add 0 (add 0 (init_state false false false (-100000000000) 0 [] []) 1 true 500) 1 true 500 in
   snd (exec (fun _ => []) s [(1000000, EOp (OReport true true)); (1250000, EOp (ORem 1 true 500));
                              (1500000, EWake); (2000000, EWake)]) = [].
 Proof. vm_compute. reflexivity. Qed.
 
 Example ex_change_hyp : logical_of (inv ex_s0) false false <> sst ex_s0.
 Proof. vm_compute. discriminate. Qed.
+
+Example ex_hcb : is_ev 4 = false. Proof. reflexivity. Qed.
+Example ex_TS : TS ex_s0. Proof. unfold TS; cbn. intros k l []. Qed.
+Example ex_no_rcb : no_rcb (reg_of (rg ex_s0) true).
+Proof. intros e H. cbn in H. repeat (destruct H as [<-|H]; [reflexivity|]). destruct H. Qed.
+
+(* mute: (1,1,250)... are pending after the change at 1 s; the switch is muted at 1.125 s and released at 1.2 s:
+   nothing is invoked for the release, the pending holds are dropped (no wake-up left), and when the switch is
+   pressed again while still muted nothing is invoked either *)
+Example ex_muted :
+  let r := exec (fun _ => []) ex_s0
+                [(1000000, EOp (OReport false false)); (1125000, EOp (OMute 7)); (1200000, EOp (OReport true false));
+                 (1250000, EWake); (1300000, EOp (OReport true true)); (1400000, EOp (OUnmute 7))] in
+  snd r = [Fire 1000000 1001 true 0; Fire 1000000 3 true 0] /\ wakes (tm (fst r)) = [] /\ sst (fst r) = true.
+Proof. vm_compute. repeat split. Qed.
+
+Example ex_muted_hyp :
+  let s := fst (exec (fun _ => []) ex_s0 [(1000000, EOp (OReport false false)); (1125000, EOp (OMute 7))]) in
+  mutes (dv s) <> [] /\ logical_of (inv s) true false <> sst s.
+Proof. vm_compute. split; discriminate. Qed.
+
+(* ignore window 250 ms on an NC switch: the activation at 1 s is posted; the release at 1.125 s is inside the
+   window and posts nothing; at the window end (1.25 s) the state differs from the posted one: one catch-up post *)
+Definition ex_rs : state := init_state true false true (-100000000000) 250000 [(1010, 0)] [(1011, 0)].
+
+Example ex_recycle_toggle :
+  snd (exec (fun _ => []) ex_rs [(1000000, EOp (OReport false false)); (1125000, EOp (OReport true false));
+                                 (1250000, ERecycle); (1500000, EOp (OReport true true))])
+  = [Fire 1000000 1001 true 0; Fire 1250000 1000 false 0; Fire 1500000 1001 true 0].
+Proof. vm_compute. reflexivity. Qed.
+
+(* ... and when the switch is back in the posted state at the window end nothing more is posted; a single change
+   is posted exactly once *)
+Example ex_recycle_back :
+  snd (exec (fun _ => []) ex_rs [(1000000, EOp (OReport false false)); (1125000, EOp (OReport true false));
+                                 (1200000, EOp (OReport false false)); (1250000, ERecycle)])
+  = [Fire 1000000 1001 true 0].
+Proof. vm_compute. reflexivity. Qed.
+
+Example ex_recycle_hyps :
+  let s := fst (exec (fun _ => []) ex_rs [(1000000, EOp (OReport false false))]) in
+  is_rcb 1011 = true /\ rc (dv ex_rs) = None /\ rc (dv s) = Some (1250000, true).
+Proof. vm_compute. repeat split. Qed.
